@@ -106,7 +106,7 @@ def o2(tier):
 @guard
 def o3(tier):
     """start-up pruning in MdkBuilder::build"""
-    ob = Ob('O3', 'MdkBuilder::build: on a persistent backend prune_expired_snapshots(now - ttl, saturating) is invoked before the instance is returned', pure=C.PURE_MLS, assume_ok=['SystemTime::duration_since'])
+    ob = Ob('O3', 'MdkBuilder::build: on a persistent backend prune_expired_snapshots(now - snapshot_ttl_seconds, saturating) is invoked before the instance is returned; the snapshot manager is built with config.epoch_snapshot_retention', pure=C.PURE_MLS, assume_ok=['SystemTime::duration_since'])
     f = ob.fn('mdk-core', 'MdkBuilder::build')
     paths = ob.explore(f, [Opaque('builder', 'MdkBuilder<Storage>')])
     n_p = 0
@@ -126,6 +126,26 @@ def o3(tier):
                 ob.require('as_secs' in s or 'now' in s.lower(), 'O3/cutoff-source', f'cut-off is {s[:120]}', p)
                 ttl = [c for c in str(a).split() if 'builder' in c]
                 ob.require('builder' in str(a) or 'builder' in s, 'O3/cutoff-ttl', f'cut-off does not depend on the configured time-to-live: {s[:160]}', p)
+    # the retention count handed to the snapshot manager is the configured epoch_snapshot_retention (not another usize field of the configuration),
+    # and the time-to-live used for the cut-off is snapshot_ttl_seconds
+    cfg = ob.prog.cat.fields('MdkConfig', 'mdk_core')
+    bld = ob.prog.cat.fields('MdkBuilder', 'mdk_core')
+    want_ret = f'builder.{bld.index("config")}.{cfg.index("epoch_snapshot_retention")}'
+    want_ttl = f'builder.{bld.index("config")}.{cfg.index("snapshot_ttl_seconds")}'
+    n_new = 0
+    for p in paths:
+        if p.kind != 'return':
+            continue
+        for e in p.trace:
+            if ev_is(e, 'EpochSnapshotManager::new'):
+                n_new += 1
+                got = uid_of(ob.eng, p.st, e.args[0])
+                ob.require(got == want_ret, 'O3/retention-source', f'the snapshot manager is built with {got} instead of the configured epoch_snapshot_retention ({want_ret}): the number of snapshots kept '
+                           '(and with it the depth of fork that can be resolved) follows another setting', p)
+            if ev_is(e, 'prune_expired_snapshots'):
+                a = e.args[1]
+                ob.require(want_ttl in (str(a) if z3.is_expr(a) else uid_of(ob.eng, p.st, a)), 'O3/ttl-source', f'the pruning cut-off does not use snapshot_ttl_seconds ({want_ttl}): {str(a)[:120]}', p)
+    ob.require(n_new >= 1, 'O3/vacuity-manager', 'EpochSnapshotManager::new not seen in build()')
     ob.require(n_p >= 1, 'O3/vacuity', 'no persistent path')
     ob.r.assumptions.append('the system clock is not before the Unix epoch (SystemTime::duration_since(UNIX_EPOCH) is Ok)')
     ob.r.bounds = {'paths': 'all', 'clock / ttl': 'symbolic u64'}
